@@ -117,6 +117,13 @@ pub open spec fn pq_ok(s: SnfCalc, a0: int) -> bool {
 pub open spec fn same_flags(s: SnfCalc, t: SnfCalc) -> bool {
     s.p.is_some() == t.p.is_some() && s.pinv.is_some() == t.pinv.is_some() && s.q.is_some() == t.q.is_some() && s.qinv.is_some() == t.qinv.is_some()
 }
+/// no row operation recorded yet
+pub open spec fn p_fresh(s: SnfCalc) -> bool { (s.p.is_some() ==> opt(s.p) == mid()) && (s.pinv.is_some() ==> opt(s.pinv) == mid()) }
+//@include units/lll_flow/tok.inc
+/// proved in unit lll_flow (C10) on the repository's bodies; the two units use the same abstract matrices
+//@contract-of units/lll_flow/contract.rs lll_hnf_in_place variant=A
+/// std::mem::take on a Mat: the old value is returned (what is left behind is not used before it is overwritten)
+#[verifier::external_body] pub fn mat_take_(m: &mut Mat) -> (r: Mat) ensures r == *old(m) { unimplemented!() }
 /// state after a row operation by E (inverse E1) / a column operation by E
 pub open spec fn row_op(s0: SnfCalc, s1: SnfCalc, e: int, e1: int) -> bool {
     same_flags(s0, s1) && s1.target.m@ == mmul(e, s0.target.m@)
@@ -353,8 +360,24 @@ impl SnfCalc {
     //@| for j in 0..n
     //@+ loop 0
     //@| invariant i <= __it0, same_flags(*old(self), *self), forall|a0: int| pq_ok(*old(self), a0) ==> pq_ok(*self, a0),
-    /// ASSUMED (dyn Any downcast + LLL-based HNF preprocessing, property C10): a unimodular row transformation, tracked like every other
+    /// the LLL-based Hermite pre-pass on the real body: the target is replaced by H = P'.target and p, pinv by the transforms lll_hnf returns --
+    /// correct exactly when no row operation has been recorded yet (P = Pinv = I), which is where `process` calls it
+    pub fn preprocess_lll(&mut self)
+        requires p_fresh(*old(self)),
+        ensures same_flags(*old(self), *final(self)), forall|a0: int| pq_ok(*old(self), a0) ==> pq_ok(*final(self), a0),
+    //@body impl/SnfCalc/preprocess_lll subst=std::mem::take:mat_take_
+    //@+ pre-raw
+    //@| let ghost s0 = *self;
+    //@+ post
+    //@| assert forall|a0: int| pq_ok(s0, a0) implies pq_ok(*self, a0) by {
+    //@|     if s0.p.is_some() && s0.q.is_some() { let q = opt(s0.q); mx_id(a0); mx_assoc(opt(self.p), a0, q); }
+    //@| }
+//@expect-in yui-matrix/src/dense/snf.rs _self.preprocess_lll()
+//@expect-in yui-matrix/src/dense/snf.rs preprocess_lll_for!(self,
+    /// ASSUMED (macro dispatch over `dyn Any`: for the listed ring types it calls preprocess_lll, for every other type it does nothing):
+    /// the text of the dispatch is pinned below
     #[verifier::external_body] pub fn preprocess(&mut self)
+        requires p_fresh(*old(self)),
         ensures same_flags(*old(self), *final(self)), forall|a0: int| pq_ok(*old(self), a0) ==> pq_ok(*final(self), a0) { unimplemented!() }
 
     /// the diagonal normalisation as a whole: it works through tracked operations, and when it returns the diagonal entries above the
@@ -410,12 +433,13 @@ impl SnfCalc {
     /// the whole reduction
     #[verifier::exec_allows_no_decreases_clause]
     pub fn process(&mut self)
+        requires p_fresh(*old(self)),
         ensures same_flags(*old(self), *final(self)), forall|a0: int| pq_ok(*old(self), a0) ==> pq_ok(*final(self), a0),
     //@body impl/SnfCalc/process
 
     /// start: P = Pinv = I, Q = Qinv = I for the requested transforms
     pub fn new(target: Mat, flags: [bool; 4]) -> (s: SnfCalc)
-        ensures s.target.m@ == target.m@, pq_ok(s, target.m@),
+        ensures s.target.m@ == target.m@, pq_ok(s, target.m@), p_fresh(s),
             s.p.is_some() == flags@[0], s.pinv.is_some() == flags@[1], s.q.is_some() == flags@[2], s.qinv.is_some() == flags@[3],
     //@body impl/SnfCalc/new subst=R:ER
     //@+ sig
